@@ -52,6 +52,17 @@ def gen_project(rng, locales, inherits, list_default):
             present = any(name == k for name, _ in data[l])
             if present and (l == default or rng.random() < 0.8):
                 data[l].append(["r_" + k, {"k": "tmpl", "segs": [{"s": "text", "v": "via "}, {"s": "fk", "ns": None, "path": [k], "args": None}]}])
+    # a key whose own value contains a reference (n1 = "<tag> $t(k1)") and a reference to it: when n1 is left to another locale, the
+    # reference inside the borrowed value is resolved where that value comes from
+    for l in locales:
+        if any(name == "k1" for name, _ in data[l]):
+            r = rng.random()
+            if l == default or r < 0.5:
+                data[l].append(["n1", {"k": "tmpl", "segs": [{"s": "text", "v": "⟨%s:n1⟩ " % l}, {"s": "fk", "ns": None, "path": ["k1"], "args": None}]}])
+            elif r < 0.8:
+                data[l].append(["n1", {"k": "null"}])
+            if any(name == "n1" for name, _ in data[l]) and (l == default or rng.random() < 0.8):
+                data[l].append(["r_n1", {"k": "tmpl", "segs": [{"s": "text", "v": "via "}, {"s": "fk", "ns": None, "path": ["n1"], "args": None}]}])
     for g, leaves in groups.items():
         for l in locales:
             r = rng.random()
@@ -141,7 +152,11 @@ def check(res, project, out, sig_extra=""):
                 except Exception as e:  # noqa
                     text = "<<%s>>" % e
             want = "⟨%s:%s⟩" % (eff, ".".join(path)) + (" X" if path == ("k4",) else "")
-            if path[0].startswith("r_"):
+            if path[0] == "n1" or path[0] == "r_n1":
+                eff_n = eff if path[0] == "n1" else model.effective_locale(project, None, eff, ("n1",))
+                want = ("via " if path[0] == "r_n1" else "") + "⟨%s:n1⟩ ⟨%s:k1⟩" % (eff_n, model.effective_locale(project, None, eff_n, ("k1",)))
+                res.count("nested-reference-in-%s-value" % ("own" if eff_n == eff else "borrowed"))
+            elif path[0].startswith("r_"):
                 k = path[0][2:]
                 want = "via ⟨%s:%s⟩" % (model.effective_locale(project, None, eff, (k,)), k)
                 res.count("reference-to-%s-key" % ("own" if model.effective_locale(project, None, eff, (k,)) == eff else "inherited"))
